@@ -1,0 +1,65 @@
+//go:build verif
+
+package simpledb
+
+import (
+	"path/filepath"
+
+	"github.com/thomasjungblut/go-sstables/memstore"
+)
+
+// VerifRotate forces a WAL rotation and hands the current memstore to the flusher, exactly like a Put that
+// exceeds the memstore size does. It returns once the flusher has taken the memstore.
+func (db *DB) VerifRotate() error {
+	db.rwLock.Lock()
+	defer db.rwLock.Unlock()
+	if !db.open || db.closed {
+		return ErrNotOpenedYet
+	}
+	return db.rotateWalAndFlushMemstore()
+}
+
+// VerifWaitFlushIdle returns once every memstore handed to the flusher so far has been written and installed.
+// It hands the flusher an empty memstore (which it skips): the unbuffered hand-off is only taken when the
+// flusher has finished its previous action.
+func (db *DB) VerifWaitFlushIdle() {
+	db.rwLock.Lock()
+	defer db.rwLock.Unlock()
+	if !db.open || db.closed {
+		return
+	}
+	empty := memstore.NewMemStore()
+	db.storeFlushChannel <- memStoreFlushAction{memStore: &empty}
+}
+
+// VerifCompactOnce runs exactly one compaction cycle (selection, merge, reflection) synchronously.
+// It returns the selected table directories and the directory the result was installed at (both as base names);
+// selected is empty when the thresholds selected nothing.
+func (db *DB) VerifCompactOnce() (selected []string, replacement string, err error) {
+	metadata, err := executeCompaction(db)
+	if err != nil || metadata == nil {
+		return nil, "", err
+	}
+	err = db.sstableManager.reflectCompactionResult(metadata)
+	return metadata.SstablePaths, metadata.ReplacementPath, err
+}
+
+// VerifTables lists the live table directories (base names), oldest first, with their metadata sizes.
+func (db *DB) VerifTables() (names []string, totalBytes []uint64, numRecords []uint64, nullValues []uint64) {
+	db.sstableManager.managerLock.RLock()
+	defer db.sstableManager.managerLock.RUnlock()
+	for _, r := range db.sstableManager.allSSTableReaders {
+		names = append(names, filepath.Base(r.BasePath()))
+		totalBytes = append(totalBytes, r.MetaData().TotalBytes)
+		numRecords = append(numRecords, r.MetaData().NumRecords)
+		nullValues = append(nullValues, r.MetaData().NullValues)
+	}
+	return
+}
+
+// VerifMemstoreEstimate returns the size estimate the rotation decision is based on.
+func (db *DB) VerifMemstoreEstimate() uint64 {
+	db.rwLock.RLock()
+	defer db.rwLock.RUnlock()
+	return db.memStore.EstimatedSizeInBytes()
+}
